@@ -68,7 +68,28 @@ func c16ProbeMain(c *ctx) {
 	os.Exit(0)
 }
 
+// c16ProbeRun starts one child for the queries and returns its answer lines in order.
+func c16ProbeRun(keys []string, deadline time.Duration) [][2]string {
+	cx, cancel := context.WithTimeout(context.Background(), deadline)
+	defer cancel()
+	cmd := exec.CommandContext(cx, os.Args[0], "C16-probe")
+	cmd.Env = append(os.Environ(), "VERIF_C16_PROBE="+strings.Join(keys, " "), "GOMEMLIMIT=off")
+	var out bytes.Buffer
+	cmd.Stdout = &out
+	_ = cmd.Run()
+	var lines [][2]string
+	for _, l := range strings.Split(out.String(), "\n") {
+		if i := strings.IndexByte(l, '='); i > 0 {
+			lines = append(lines, [2]string{l[:i], l[i+1:]})
+		}
+	}
+	return lines
+}
+
 // c16Probe runs the queries in child processes; the answer of a query the child did not survive is "diverges".
+// A diverging call of the functions probed here allocates without end, so the child dies of its address-space
+// limit within seconds; the deadlines are generous (a loaded machine must not turn a slow child into a verdict),
+// and a query is only called diverging when a second child, given that query alone, does not answer it either.
 func c16Probe(qs []c16Query) map[string]string {
 	ans := map[string]string{}
 	rest := qs
@@ -78,25 +99,21 @@ func c16Probe(qs []c16Query) map[string]string {
 		for _, q := range rest {
 			keys = append(keys, q.key())
 		}
-		cx, cancel := context.WithTimeout(context.Background(), 8*time.Second)
-		cmd := exec.CommandContext(cx, os.Args[0], "C16-probe")
-		cmd.Env = append(os.Environ(), "VERIF_C16_PROBE="+strings.Join(keys, " "), "GOMEMLIMIT=off")
-		var out bytes.Buffer
-		cmd.Stdout = &out
-		_ = cmd.Run()
-		cancel()
-		n := 0
-		for _, l := range strings.Split(out.String(), "\n") {
-			if i := strings.IndexByte(l, '='); i > 0 {
-				ans[l[:i]] = l[i+1:]
-				n++
-			}
+		lines := c16ProbeRun(keys, 90*time.Second)
+		for _, l := range lines {
+			ans[l[0]] = l[1]
 		}
+		n := len(lines)
 		if n >= len(rest) {
 			break
 		}
-		ans[rest[n].key()] = "diverges" // the first unanswered query killed the child (deadline or memory)
+		bad := rest[n]
 		rest = rest[n+1:]
+		if again := c16ProbeRun([]string{bad.key()}, 60*time.Second); len(again) == 1 {
+			ans[bad.key()] = again[0][1] // the first child died of something else
+			continue
+		}
+		ans[bad.key()] = "diverges"
 		if ndiv++; ndiv >= 6 {
 			// enough evidence; every further diverging call costs up to the deadline
 			for _, q := range rest {
